@@ -98,6 +98,9 @@ def judge (incr scratch : Tree) (walkIncr walkScratch : Array String) (apiIncr a
 structure RS where
   it : Iter := { stack := [] }
   pos : Nat := 0
+  col : Nat := 0
+  colFix : Bool := false     -- does the source under test contain the column/range repair?
+  coldepSeen : Bool := false -- a column-dependent candidate met the gate while ranges differed
   state : Option Nat := none
   startState : Nat := 1
   didReuse : Bool := false
@@ -135,16 +138,18 @@ def RS.gateEvent (s : RS) (L : Lang) (symName : Nat → String) (ev : Verdict) (
     else
       let off := s.it.byteOffset
       let extEq := ev != .extState
-      let s := { s with gate := s.gate + 1 }
+      let ld := lineDiffOf s.colFix s.diffs.toList t off s.col
+      let s := { s with gate := s.gate + 1
+                        coldepSeen := s.coldepSeen || (t.data.dependsOnColumn && !s.diffs.isEmpty) }
       let s :=
         match s.state with
         | some st =>
-          let v := reuseGate L s.diffs.toList t off s.pos st extEq
+          let v := reuseGate L s.diffs.toList t off s.pos st extEq ld
           if v = ev then { s with matched := s.matched + 1 }
           else s.bad s!"parser logged {ev.name} for `{name}` at offset {off} (position {s.pos}, state {st}); reuseGate says {v.name}"
         | none =>
           -- parse state was re-read from the stack after a breakdown: the first-leaf test is undetermined
-          let v := reuseGate L s.diffs.toList t off s.pos 0 extEq
+          let v := reuseGate L s.diffs.toList t off s.pos 0 extEq ld
           let fl := fun (x : Verdict) => x == Verdict.firstLeaf || x == Verdict.reuse
           if v = ev then { s with matched := s.matched + 1 }
           else if fl v && fl ev then { s with undet := s.undet + 1 }
@@ -179,8 +184,8 @@ def RS.flushShift (s : RS) : RS :=
 
 /-- A new `process …` line: close the previous `ts_parser__advance` call (a reused look-ahead
 consumed by a Recover action in the error state also advances the iterator), then start the next. -/
-def RS.process (s : RS) (state pos : Nat) : RS :=
+def RS.process (s : RS) (state pos col : Nat) : RS :=
   let s := if s.didReuse && s.startState == 0 then { s with it := s.it.advance } else s
-  { s with didReuse := false, state := some state, startState := state, pos := pos }
+  { s with didReuse := false, state := some state, startState := state, pos := pos, col := col }
 
 end TsVerif.C01
